@@ -1,4 +1,5 @@
 # Registry of checks: property id -> harness package, test function, level.
 CHECKS = {
+    "C03": {"pkg": "checks/c03", "test": "TestC03", "level": "model_checking", "shards": 16},
     "C12": {"pkg": "checks/c12", "test": "TestC12", "level": "exploration", "shards": 16},
 }
